@@ -513,9 +513,9 @@ fn run_weighted(case: &Case, mut o: Obs) -> Outcome {
     let fam = [Family::Hermite, Family::Laguerre, Family::Chebyshev1, Family::Chebyshev2][*family as usize % 4];
     o.label(format!("weighted-{}", fam.name()));
     let (nrules, dmax) = match fam {
-        Family::Hermite => (27, 12),
+        Family::Hermite => (27, 44),
         Family::Laguerre => (12, 19),
-        _ => (100, 30),
+        _ => (100, 48),
     };
     let mu0 = fam.mu0();
     let coef = |uu: &Vec<f64>| -> Vec<f64> { uu.iter().take(dmax + 1).enumerate().map(|(k, v)| v / (mu0 * fam.moment(2 * k)).sqrt()).collect() };
@@ -750,7 +750,7 @@ fn job() -> BoxedStrategy<Job> {
 
 fn strategy(t: Tier) -> BoxedStrategy<Case> {
     let interval = (0u8..3, job()).prop_map(|(routine, job)| Case::Interval { routine, job });
-    let uvec = || (0usize..=30).prop_flat_map(|d| proptest::collection::vec(gen::fl(-1.0, 1.0), d + 1));
+    let uvec = || prop_oneof![3 => 0usize..=30, 1 => 31usize..=48].prop_flat_map(|d| proptest::collection::vec(gen::fl(-1.0, 1.0), d + 1));
     let weighted = (0u8..4, uvec(), uvec(), prop_oneof![1 => Just(0.0), 2 => gen::fl(-2.0, 2.0)], (gen::fl(-1.0, 1.0), prop_oneof![2 => Just(0.0), 1 => gen::fl(-3.0, 0.0), 1 => gen::fl(0.0, 3.0)]), gen::fl(0.0, 1.0), prop_oneof![3 => Just(false), 1 => Just(true)])
         .prop_map(|(family, u, u_im, cc, (b, mag_exp), tol_pos, complex)| Case::Weighted { family, u, u_im, cc, b, tol_pos, complex, mag_exp });
     let romberg = (1usize..=10, proptest::collection::vec(gen::fl(-1.0, 1.0), 20), proptest::collection::vec(gen::fl(-1.0, 1.0), 20), gen::fl(0.05, 4.0), gen::fl(0.0, 1.0), (any::<bool>(), prop_oneof![3 => Just(false), 1 => Just(true)]))
@@ -785,7 +785,7 @@ pub fn run(opts: &Opts) -> i32 {
         ("complex", 0.1),
     ];
     spec.max_discard_frac = 0.2;
-    spec.rule = "generated: integrands P_d(x)+A e^{ax}+B sin(bx+phi) (d<=6, |a|<=1.5, |b|<=2; complex variant + i Q(x) + C e^{i b x}; coefficients in [-1,1], amplitudes in [-2,2], all optionally times a common magnitude 10^[-3,1]) on intervals of length 0.05..4 anywhere in [-5,5], tolerance log-uniform from max(1e-11, 1e4 eps (b-a) sum|terms|) to 1e-3 for tanh-sinh / Gauss-Legendre / adaptive Simpson; weighted rules on sum u_k x^k/sqrt(mu0 m_2k) + C cos(bx) (degree <= 12 Hermite, 19 Laguerre, 30 Chebyshev; |b|<=1, 0.5 for Laguerre) against exact moments and closed forms, amplitudes optionally times 10^[-3,3] (integrals far from unit size under an absolute tolerance); Romberg n=1..10 on polynomials of degree <= 2n-1 (a quarter of them multiples of (x-a)(x-b)(x-(a+b)/2): zero on the three coarsest nodes); batches of 20/40 Simpson integrals for the work bound; invalid class (reversed/empty interval, negative tolerance) for all eight routines. A case is admitted only if the harness's simulation of the documented stopping rule on independently computed nodes decides every step with a factor-1.5 margin and is itself within tol/2 of the closed-form integral; non-admitted cases are counted as discards (< 20%). Oracle: Ok required; |v-I| <= 2 tol + 64 eps (b-a) sum|terms| (tanh-sinh below 1e-8: 4 sqrt(tol); Simpson: tol on polynomials of degree <= 5 (no accuracy claim on the smooth family) - also with the depth cap equal to the deepest level the textbook recursion needs (Ok required) and one level short (Err, or an Ok within the bound), evaluation count <= 8x reference + 32 per case and <= 2x per batch; Romberg: 2048 eps (b-a) sum|c_k||x|^k). Non-trivial = non-polynomial, degree >= 4, complex or interval not containing 0; weighted: non-polynomial or >= 5 coefficients or complex; batches; invalid. Distinct = distinct case JSON.".into();
+    spec.rule = "generated: integrands P_d(x)+A e^{ax}+B sin(bx+phi) (d<=6, |a|<=1.5, |b|<=2; complex variant + i Q(x) + C e^{i b x}; coefficients in [-1,1], amplitudes in [-2,2], all optionally times a common magnitude 10^[-3,1]) on intervals of length 0.05..4 anywhere in [-5,5], tolerance log-uniform from max(1e-11, 1e4 eps (b-a) sum|terms|) to 1e-3 for tanh-sinh / Gauss-Legendre / adaptive Simpson; weighted rules on sum u_k x^k/sqrt(mu0 m_2k) + C cos(bx) (degree <= 44 Hermite, 19 Laguerre, 48 Chebyshev: up to what the rule sequences integrate exactly; |b|<=1, 0.5 for Laguerre) against exact moments and closed forms, amplitudes optionally times 10^[-3,3] (integrals far from unit size under an absolute tolerance); Romberg n=1..10 on polynomials of degree <= 2n-1 (a quarter of them multiples of (x-a)(x-b)(x-(a+b)/2): zero on the three coarsest nodes); batches of 20/40 Simpson integrals for the work bound; invalid class (reversed/empty interval, negative tolerance) for all eight routines. A case is admitted only if the harness's simulation of the documented stopping rule on independently computed nodes decides every step with a factor-1.5 margin and is itself within tol/2 of the closed-form integral; non-admitted cases are counted as discards (< 20%). Oracle: Ok required; |v-I| <= 2 tol + 64 eps (b-a) sum|terms| (tanh-sinh below 1e-8: 4 sqrt(tol); Simpson: tol on polynomials of degree <= 5 (no accuracy claim on the smooth family) - also with the depth cap equal to the deepest level the textbook recursion needs (Ok required) and one level short (Err, or an Ok within the bound), evaluation count <= 8x reference + 32 per case and <= 2x per batch; Romberg: 2048 eps (b-a) sum|c_k||x|^k). Non-trivial = non-polynomial, degree >= 4, complex or interval not containing 0; weighted: non-polynomial or >= 5 coefficients or complex; batches; invalid. Distinct = distinct case JSON.".into();
     spec.assumptions = vec!["closed-form integrals evaluated by Taylor shift / expm1 / product formulas (error << floor)".into(), "independent Gauss rules by Golub-Welsch (refs::quad), validated against the tables by C10".into()];
     spec.max_shrink_iters = 1500;
     run_spec(spec, opts)
